@@ -594,7 +594,7 @@ for _text_limit in ("maxstring", "maxother"):
         (REPR, '_DECORATOR_RE = re.compile(r"^\\s*@\\s*[a-zA-Z_(]")\n', '_DECORATOR_RE = re.compile(r"^\\s*@[a-zA-Z_]")\n'),
     ],
     "mutants/c07_decorator_re_max_4_blanks": [
-        (REPR, '_DECORATOR_RE = re.compile(r"^\\s*@\\s*[a-zA-Z_(]")\n', '_DECORATOR_RE = re.compile(r"^\\s{0,8}@\\s*[a-zA-Z_(]")\n'),
+        (REPR, '_DECORATOR_RE = re.compile(r"^\\s*@\\s*[a-zA-Z_(]")\n', '_DECORATOR_RE = re.compile(r"^\\s{0,12}@\\s*[a-zA-Z_(]")\n'),
     ],
     "mutants/c14_fix_unreadable_class_attribute_reverted": [
         (CHK, """        try:
